@@ -1,40 +1,80 @@
 import GoomVerif.Lemmas.C20L
+import GoomVerif.Gen.JmpIfaceAmd64
+import GoomVerif.Gen.JmpIfaceArm64
 /-! C20 — executable stub space is never handed out twice or outside its reserve.
     Model: `Model/Stub.lean`; the expressions of `acquireFromHolder`/`init` are `Gen/StubHolder.lean`, regenerated from
-    holder.go on every run.  Addresses are below 2^63 (user space), request lengths are Go `int`s ≥ 0. -/
+    holder.go on every run.  Addresses are below 2^63 (user space); request lengths range over the whole Go `int` domain. -/
 namespace C20
 open Stub C20L Gen.StubHolder
 
-/-- Clause "sequential requests": in every sequential history of `Acquire` calls (any sizes, the primary mmap path
-    working or failing per request) every region handed out from the reserve lies inside `[min,max)`, regions are
-    pairwise disjoint (each ends before the next one starts), and every region — mmap or reserve — is exactly as
-    long as requested. -/
-theorem seq_regions_in_reserve_sized_disjoint (off min max : Nat) (reqs : List (Nat × Mmap))
+/-- Clause "sequential requests … for all request sizes": in every sequential history of `Acquire(spaceLen int)` calls —
+    ANY `int` lengths, negative ones included, the primary mmap path working or failing per request — every region
+    handed out from the reserve lies inside `[min,max)`, regions are pairwise disjoint (each ends before the next one
+    starts), every region (mmap or reserve) is at least as long as requested, and a reserve region is never the answer
+    to a negative request.  (False for the code without the `len < 0` check: `Acquire(-8)` succeeds with `Len = -8` and
+    moves the pointer BACK, so the next region overlaps an earlier one — defect F27.) -/
+theorem seq_regions_in_reserve_sized_disjoint (off min max : Nat) (reqs : List (Int × Mmap))
     (h0 : min ≤ off) (h1 : off ≤ max) (h2 : max < 9223372036854775808) (hl : ∀ r ∈ reqs, r.1 < 9223372036854775808) :
     (∀ r ∈ holderRegions (runSeq off min max reqs), min ≤ r.1 ∧ r.1 + r.2 ≤ max) ∧
     (holderRegions (runSeq off min max reqs)).Pairwise disj ∧
-    (∀ q ∈ runSeq off min max reqs, ∀ sp, q.2 = some sp → q.1 ≤ sp.len) := by
+    (∀ q ∈ runSeq off min max reqs, ∀ sp, q.2 = some sp → q.1 ≤ (sp.len : Int) ∧ (sp.typ = typeHolder → 0 ≤ q.1)) := by
   have I := seq_inv min max h2 reqs off h1 hl
-  refine ⟨fun r hr => ⟨by have := (I.2.1 r hr).1; omega, (I.2.1 r hr).2⟩, ?_, ?_⟩
-  · exact List.Pairwise.imp (fun h => Or.inl h) I.2.2.1
-  · intro q hq sp hsp; have := I.2.2.2 q hq sp hsp; omega
+  refine ⟨fun r hr => ⟨by have := (I.2.1 r hr).1; omega, (I.2.1 r hr).2⟩, ?_, I.2.2.2⟩
+  exact List.Pairwise.imp (fun h => Or.inl h) I.2.2.1
 
-example : holderRegions (runSeq 1000 1000 1100 [(40, .fail), (48, .fresh 7000), (0, .fail), (50, .fail), (20, .fail), (5, .fail)])
+example : holderRegions (runSeq 1000 1000 1100 [(40, .fail), (48, .fresh 7000), (0, .fail), (-8, .fail), (50, .fail), (20, .fail), (5, .fail)])
     = [(1000, 40), (1040, 0), (1040, 50), (1090, 5)] := by decide
+
+/-- Clause "disjoint from every region returned before", across BOTH paths: in every sequential history all regions —
+    mappings and reserve regions alike — are pairwise disjoint, provided the kernel behaves as an allocator: the
+    mappings it grants (which goom never unmaps) are pairwise disjoint and do not cover the placeholder's text
+    `[min,max)`.  That hypothesis is the environment assumption of this property; the probe checks it on every mapping
+    it receives (sequentially and for concurrent callers of Acquire). -/
+theorem seq_all_regions_disjoint (off min max : Nat) (reqs : List (Int × Mmap))
+    (h0 : min ≤ off) (h1 : off ≤ max) (h2 : max < 9223372036854775808) (hl : ∀ r ∈ reqs, r.1 < 9223372036854775808)
+    (hk : (kernelAnswers reqs).Pairwise disj) (ho : ∀ c ∈ kernelAnswers reqs, c.1 + c.2 ≤ min ∨ max ≤ c.1) :
+    (allRegions (runSeq off min max reqs)).Pairwise disj :=
+  (seq_all_disjoint min max h2 reqs off h0 h1 hl hk ho).1
+
+example : allRegions (runSeq 1000 1000 1100 [(40, .fail), (48, .fresh 7000), (0, .fail), (-8, .fail), (50, .fail), (48, .fresh 9000), (5, .fail)])
+    = [(1000, 40), (7000, 48), (1040, 0), (1040, 50), (9000, 48), (1090, 5)] := by decide
+
+/-- Clause "for all request sizes", the negative half on its own: a negative length is refused — no region, the bump
+    pointer does not move — and under every schedule a negative request of a concurrent requester ends in an error. -/
+theorem negative_length_is_refused (off min max : Nat) (r : Int) (hr : r < 0) :
+    acquire .fail off min max r = (off, none) := by
+  have g : guardFails r = true := by
+    cases h : guardFails r
+    · have := gen_guard_safe r h; omega
+    · rfl
+  simp only [acquire, acquireFromHolderI, g, if_true]
+
+example : (acquire .fail 1048 1000 1100 (-8)) = (1048, none) := by decide
 
 /-- Clause "exhaustion is reported as an error instead of overrunning the reserve" (one caller at a time): a request
     that does not fit behind the bump pointer is refused and leaves the pointer where it was; a request that is served
-    gets exactly the bytes behind the pointer, which then advances by the length and stays inside the reserve; the
-    pointer never passes `max`, however long the history. -/
-theorem exhaustion_is_error_not_overrun (off min max len : Nat) (h1 : off ≤ max) (h2 : max < 9223372036854775808)
-    (hl : len < 9223372036854775808) :
-    (max < off + len → acquire .fail off min max len = (off, none)) ∧
-    (∀ o sp, acquire .fail off min max len = (o, some sp) → sp = ⟨off, len, typeHolder⟩ ∧ o = off + len ∧ off + len ≤ max) ∧
-    (∀ reqs : List (Nat × Mmap), (∀ r ∈ reqs, r.1 < 9223372036854775808) → offSeq off min max reqs ≤ max) := by
-  have sp := acquireFromHolder_spec off min max len h1 h2 hl
-  refine ⟨fun h => by simp only [acquire, sp.2 h], ?_, ?_⟩
+    gets exactly the bytes behind the pointer, which then advances by the length and stays inside the reserve; in a
+    one-caller history started with the pointer inside the reserve it never passes `max`.  (Under concurrency the pointer
+    itself may overshoot after a lost race — the regions still never do: `conc_regions_in_reserve_sized_disjoint`.) -/
+theorem exhaustion_is_error_not_overrun (off min max : Nat) (r : Int) (h1 : off ≤ max) (h2 : max < 9223372036854775808)
+    (h0 : 0 ≤ r) (hl : r < 9223372036854775808) :
+    (max < off + r.toNat → acquire .fail off min max r = (off, none)) ∧
+    (∀ o sp, acquire .fail off min max r = (o, some sp) →
+        sp = ⟨off, r.toNat, typeHolder⟩ ∧ o = off + r.toNat ∧ off + r.toNat ≤ max) ∧
+    (∀ reqs : List (Int × Mmap), (∀ q ∈ reqs, q.1 < 9223372036854775808) → offSeq off min max reqs ≤ max) := by
+  have hu := ulen_nonneg h0 hl
+  have sp := acquireFromHolder_spec off min max r.toNat h1 h2 hu.2
+  refine ⟨?_, ?_, ?_⟩
+  · intro h
+    rcases acquire_cases .fail off min max r h1 h2 hl with ⟨a, e, _⟩ | ⟨_, _, hfit, _⟩ | ⟨_, o', _, _, e⟩
+    · cases e
+    · omega
+    · unfold acquire acquireFromHolderI at e ⊢
+      cases g : guardFails r
+      · simp only [g, Bool.false_eq_true, if_false, hu.1, sp.2 h]
+      · simp only [g, if_true]
   · intro o s hs
-    rcases acquire_cases .fail off min max len h1 h2 hl with ⟨a, e, _⟩ | ⟨_, hfit, e⟩ | ⟨_, o', _, _, e⟩
+    rcases acquire_cases .fail off min max r h1 h2 hl with ⟨a, e, _⟩ | ⟨_, _, hfit, e⟩ | ⟨_, o', _, _, e⟩
     · cases e
     · rw [e] at hs
       simp only [Prod.mk.injEq, Option.some.injEq] at hs
@@ -47,31 +87,36 @@ example : (runSeq 1000 1000 1100 [(60, .fail), (60, .fail), (30, .fail), (20, .f
     = [some ⟨1000, 60, typeHolder⟩, none, some ⟨1060, 30, typeHolder⟩, none] := by decide
 
 /-- Clause "concurrent requests never receive overlapping regions … regions stay inside the reserve": for EVERY
-    schedule of the micro-steps (load, check, atomic add, check, return) of ANY number of concurrent requesters,
-    every region returned lies inside `[min,max)`, is as long as requested, and any two regions returned to different
-    requesters are disjoint.  (`hB`: the number of requesters times the reserve size does not reach 2^63, so the
-    64-bit bump pointer cannot wrap; with a 12 KiB reserve that is ≈ 7·10^14 simultaneous requesters.) -/
-theorem conc_regions_in_reserve_sized_disjoint (off min max : Nat) (lens : List Nat) (σ : List Nat)
-    (h0 : min ≤ off) (h1 : off ≤ max) (hl : ∀ l ∈ lens, l < 9223372036854775808)
-    (hB : max + lens.length * (max - min) < 9223372036854775808) :
-    (∀ i a l, resultOf (run (init off min max lens) σ) i = some (.ok a l) →
-        min ≤ a ∧ a + l ≤ max ∧ lens[i]? = some l) ∧
-    (∀ i j a l a' l', i ≠ j → resultOf (run (init off min max lens) σ) i = some (.ok a l) →
-        resultOf (run (init off min max lens) σ) j = some (.ok a' l') → disj (a, l) (a', l')) :=
-  conc_main off min max lens σ h0 h1 hl hB
+    schedule of the micro-steps (load, check, atomic add, check, return) of ANY number of concurrent requesters with ANY
+    `int` lengths, every region returned lies inside `[min,max)`, is exactly as long as requested (so the request was
+    not negative), any two regions returned to different requesters are disjoint, and every negative request ends in
+    an error.  (`hB`: the number of requesters times the reserve size does not reach 2^63, so the 64-bit bump pointer
+    cannot wrap; with a 12 KiB reserve that is ≈ 7·10^14 simultaneous requesters.) -/
+theorem conc_regions_in_reserve_sized_disjoint (off min max : Nat) (reqs : List Int) (σ : List Nat)
+    (h0 : min ≤ off) (h1 : off ≤ max) (hl : ∀ r ∈ reqs, r < 9223372036854775808)
+    (hB : max + reqs.length * (max - min) < 9223372036854775808) :
+    (∀ i a l, resultOf (run (initI off min max reqs) σ) i = some (.ok a l) →
+        min ≤ a ∧ a + l ≤ max ∧ reqs[i]? = some (l : Int)) ∧
+    (∀ i j a l a' l', i ≠ j → resultOf (run (initI off min max reqs) σ) i = some (.ok a l) →
+        resultOf (run (initI off min max reqs) σ) j = some (.ok a' l') → disj (a, l) (a', l')) ∧
+    (∀ i r, reqs[i]? = some r → r < 0 → resultOf (run (initI off min max reqs) σ) i = some .err) :=
+  conc_mainI off min max reqs σ h0 h1 hl hB
 
-example : let s := run (init 1000 1000 1100 [40, 40, 40]) [0, 1, 2, 0, 1, 2, 1, 0, 2, 2, 2, 1, 1, 0, 0]
-    (resultOf s 0, resultOf s 1, resultOf s 2) = (some (.ok 1040 40), some (.ok 1000 40), some .err) := by decide
+example : let s := run (initI 1000 1000 1100 [40, -8, 40, 40]) [0, 2, 3, 0, 2, 3, 2, 0, 3, 3, 3, 2, 2, 0, 0, 1]
+    (resultOf s 0, resultOf s 1, resultOf s 2, resultOf s 3) =
+      (some (.ok 1040 40), some .err, some (.ok 1000 40), some .err) := by decide
 
 /-- Clause "primary path": when the kernel grants the anonymous RWX mapping, `Acquire` returns exactly that mapping
     with the requested length, marks it for plain-copy writes, and does not touch the reserve; when the kernel
     refuses, the request is served from the reserve (or refused) and marked for `memory.WriteTo`. No `Space` that
-    `Acquire` returns is rejected by `Write`. -/
-theorem mmap_dispatch (off min max len : Nat) (mm : Mmap) :
-    (∀ a, mm = .fresh a → acquire mm off min max len = (off, some ⟨a, len, typeMMap⟩) ∧ writeVia typeMMap = .copy) ∧
-    (mm = .fail → ∀ o sp, acquire mm off min max len = (o, some sp) →
-        sp.typ = typeHolder ∧ writeVia sp.typ = .writeTo ∧ acquireFromHolder off min max len = (o, .ok sp.addr sp.len)) ∧
-    (∀ o sp, acquire mm off min max len = (o, some sp) → writeVia sp.typ ≠ .illegal) := by
+    `Acquire` returns is rejected by `Write`.  (`acquire` transcribes space.go:25; tools/genstub matches the Go text of
+    `Acquire` and of the switch in `Write` literally on every run, and the `d<len>` probe lane runs the fallback for
+    requests that fit.) -/
+theorem mmap_dispatch (off min max : Nat) (r : Int) (mm : Mmap) :
+    (∀ a, mm = .fresh a → acquire mm off min max r = (off, some ⟨a, r.toNat, typeMMap⟩) ∧ writeVia typeMMap = .copy) ∧
+    (mm = .fail → ∀ o sp, acquire mm off min max r = (o, some sp) →
+        sp.typ = typeHolder ∧ writeVia sp.typ = .writeTo ∧ acquireFromHolderI off min max r = (o, .ok sp.addr sp.len)) ∧
+    (∀ o sp, acquire mm off min max r = (o, some sp) → writeVia sp.typ ≠ .illegal) := by
   refine ⟨?_, ?_, ?_⟩
   · intro a e; subst e; exact ⟨rfl, by decide⟩
   · intro e o sp h; subst e
@@ -92,11 +137,60 @@ theorem mmap_dispatch (off min max len : Nat) (mm : Mmap) :
       · simp only [Prod.mk.injEq, Option.some.injEq] at h; rw [← h.2]; show writeVia typeHolder ≠ _; decide
       · simp at h
 
+/-- Clause "writable through the provided writer" + "disjoint": what `Write(s, data)` stores stays inside the region `s`
+    (so writing one's own region can never change a neighbour's bytes), nothing of `data` is silently dropped, and data
+    that fits the region is never refused.  (False for the code without the length check in `Write`: on the reserve
+    path `memory.WriteTo(s.Addr, data)` stores all of `data` whatever the region length — 24 bytes into a 16-byte
+    region overwrite the neighbour's first 8 — and on the mapping path `copy` drops the excess silently: defect F28.) -/
+theorem write_confined (sp : Space) (dataLen : Nat) (ht : sp.typ = typeMMap ∨ sp.typ = typeHolder) :
+    (∀ fp, writeFootprint sp dataLen = some fp →
+        fp.1 = sp.addr ∧ fp.1 + fp.2 ≤ sp.addr + sp.len ∧ fp.2 = dataLen) ∧
+    (dataLen ≤ sp.len → writeFootprint sp dataLen ≠ none) := by
+  constructor
+  · intro fp h
+    unfold writeFootprint at h
+    cases g : writeRejects dataLen sp.len
+    · have hle := gen_write_safe _ _ g
+      rcases ht with e | e
+      · simp only [g, Bool.false_eq_true, if_false, e, writeVia, if_true, Option.some.injEq] at h
+        have hm : Nat.min dataLen sp.len = dataLen := Nat.min_eq_left hle
+        rw [← h, hm]; exact ⟨rfl, by show sp.addr + dataLen ≤ _; omega, rfl⟩
+      · have : writeVia sp.typ = .writeTo := by rw [e]; decide
+        simp only [g, Bool.false_eq_true, if_false, this, Option.some.injEq] at h
+        rw [← h]; exact ⟨rfl, by show sp.addr + dataLen ≤ _; omega, rfl⟩
+    · simp [g] at h
+  · intro hle
+    unfold writeFootprint
+    rw [gen_write_accepts _ _ hle]
+    rcases ht with e | e
+    · simp [e, writeVia]
+    · have : writeVia sp.typ = .writeTo := by rw [e]; decide
+      simp [this]
+
+example : writeFootprint ⟨1000, 16, typeHolder⟩ 16 = some (1000, 16) ∧ writeFootprint ⟨1000, 16, typeHolder⟩ 24 = none ∧
+    writeFootprint ⟨7000, 16, typeMMap⟩ 24 = none ∧ writeFootprint ⟨7000, 48, typeMMap⟩ 12 = some (7000, 12) := by decide
+
+/-- Anchor make_method.go: the stub that `MakeMethodCaller`/`MakeMethodCallerWithCtx` write fits the region they
+    request — for every target address, on amd64 (12 bytes) and on arm64 (24 bytes), the emitted jump is at most
+    `interfaceJumpDataLen` long (the emitters are the regenerated `Gen.IfaceAmd64/IfaceArm64`, the constant and the
+    fact that every `stub.Acquire` in package iface asks for it are re-extracted on every run). -/
+theorem stub_fits_request (dx a b : BitVec 64) :
+    (Gen.IfaceAmd64.jmpWithRdx dx).length ≤ interfaceJumpDataLen ∧
+    (Gen.IfaceArm64.jmpWithRdx dx).length ≤ interfaceJumpDataLen ∧
+    (Gen.IfaceArm64.jmpWithRdxAndCtx dx a b).length ≤ interfaceJumpDataLen := by
+  refine ⟨?_, ?_, ?_⟩
+  · unfold Gen.IfaceAmd64.jmpWithRdx interfaceJumpDataLen; simp
+  · unfold Gen.IfaceArm64.jmpWithRdx Gen.IfaceArm64.movImm interfaceJumpDataLen; simp
+  · unfold Gen.IfaceArm64.jmpWithRdxAndCtx Gen.IfaceArm64.movImm interfaceJumpDataLen; simp
+
 /-- Clause "writable through the provided writer" — for every write, not only the first: whatever `Space` `Acquire`
     returns (mapping or reserve), any number of successive `Write`s through it goes through, and each leaves the region
     in the protection it had when it was handed out (mapping: RWX, never sealed; reserve: R-X restored by
-    memory.WriteTo, which re-opens it on the next call). -/
-theorem write_repeatable (off min max len : Nat) (mm : Mmap) (o : Nat) (sp : Space)
+    memory.WriteTo, which re-opens it on the next call).
+    The protection automaton `writeOnce` is a hand transcription of space.go:45 / mwrite_amd64.go:19, so this theorem is
+    only as good as that transcription: its tie to the code is the `c20.writes` lane (n successive real writes compared
+    with `writeN`) and the literal match of the switch in `Write` by tools/genstub. -/
+theorem write_repeatable (off min max : Nat) (len : Int) (mm : Mmap) (o : Nat) (sp : Space)
     (h : acquire mm off min max len = (o, some sp)) (n : Nat) :
     writeN sp.typ (initPerm sp.typ) n = some (initPerm sp.typ) := by
   have ht : sp.typ = typeMMap ∨ sp.typ = typeHolder := by
@@ -116,14 +210,17 @@ example : writeN typeMMap (initPerm typeMMap) 4 = some .rwx ∧ writeN typeHolde
 
 /-- Concurrent writers on the reserve path: neighbouring regions share a code page, and every writer runs
     lock / mprotect RWX / copy / mprotect R-X / unlock (memory.WriteTo).  For EVERY schedule of any number of writers no
-    copy ever hits a page that is not writable — because the protection is restored before the lock is released. -/
+    copy ever hits a page that is not writable — because the protection is restored before the lock is released.
+    (`wstep` is a hand-written lock model; the statement order of memory.WriteTo is compared with it by C11's skeleton
+    check, and the `c20.cwrite` lane runs real concurrent writers on shared pages.) -/
 theorem conc_writers_never_fault (n : Nat) (σ : List Nat) : (wrun (winit n) σ).faulted = false :=
   (winv_run σ (winv_init n)).nofault
 
 example : (wrun (winit 2) [0, 1, 0, 1, 0, 0, 1, 0, 1, 1, 1, 1, 1]).pcs = [.done, .done] := by decide
 
 /-- The slice handed to the writer is the returned region: it starts at the returned address and its length and
-    capacity are the requested length (so a write through it cannot reach a neighbour). -/
+    capacity are the requested length.  (Regression guard on the generated definitions; that `Write` stays inside the
+    region is `write_confined`.) -/
 theorem slice_is_region (p n l mi ma : Nat) :
     sliceData p n l mi ma = retAddr p n l mi ma ∧ sliceLen p n l mi ma = l ∧ sliceCap p n l mi ma = l :=
   ⟨gen_data p n l mi ma, (gen_len p n l mi ma).1, (gen_len p n l mi ma).2⟩
